@@ -433,6 +433,8 @@ void mmd_export_header_itmz(DString * out, const char * source, token * t, scrat
 			switch (walker->type) {
 				case TEXT_NL:
 				case TEXT_NL_SP:
+				case TEXT_LINEBREAK:
+				case TEXT_LINEBREAK_SP:
 				case INDENT_TAB:
 				case INDENT_SPACE:
 				case NON_INDENT_SPACE:
